@@ -92,6 +92,16 @@ def make_cases(ctx):
             yield "rl-%04x-%d%d-e%d-%s" % (sid, ver[0], ver[1], etm,
                                            direction), dict(
                 mode="rl", sid=sid, ver=ver, etm=etm, dir=direction)
+    # forged protected records during the handshake
+    for sid, ver, etm in ks:
+        if ctx.quick and suites.TABLE[sid].cipher_kind not in ("gcm", "cbc",
+                                                                 "chacha"):
+            continue
+        for direction in ("c2s", "s2c"):
+            for how in ("garbage", "flipped_copy", "empty"):
+                yield "hs-%04x-%d%d-%s-%s" % (sid, ver[0], ver[1], direction,
+                                              how), dict(
+                    mode="hs", sid=sid, ver=ver, dir=direction, how=how)
     # connection level
     n = ctx.pick(40, 600)
     for i in range(n):
@@ -485,6 +495,7 @@ def run_rl(ctx, cid, P):
     # TLS 1.3: other key epoch via KeyUpdate on the sender only
     if ver == (3, 4):
         run_tls13_forgeries(ctx, rig, saved_r, saved_w, kind, su, trial, W)
+        run_tls13_epochs(ctx, cid, rig, saved_r, saved_w, kind, W)
     # SSLv2-style framing presented on an established connection
     for k in (0, 1, 16, 32, 48):
         trial("ssl2_frame2", bytes([0x80 | (k >> 8), k & 255]) +
@@ -541,6 +552,133 @@ def run_tls13_forgeries(ctx, rig, saved_r, saved_w, kind, su, trial, W):
     for mclass, pt, ityp, pad in ok_cases:
         w = seal(pt + bytes([ityp]) + b"\x00" * pad)
         trial(mclass, w, [(w, ityp, pt)])
+
+
+def run_tls13_epochs(ctx, cid, rig, saved_r, saved_w, kind, W):
+    """both ends move this direction to the next key generation (what a
+    KeyUpdate does); records of the previous generation, taken at the same
+    sequence numbers, must not be accepted by the new one"""
+    cs, rs = rig.snd.session, rig.rcv.session
+    suite = cs.cipherSuite
+    olds = []
+    for seq in (0, 1, 2):
+        st = snap(saved_w)
+        st.seqnum = seq
+        rig.sl._writeState = st
+        pt = mon.keystream("%s/old%d" % (cid, seq), 24)
+        olds.append((rig.protect(23, pt), 23, pt))
+    try:
+        for gen in (1, 2):
+            rig.sl._writeState = snap(saved_w) if gen == 1 else new_w
+            if gen == 1:
+                c_s, s_s = cs.cl_app_secret, cs.sr_app_secret
+                c_r, s_r = rs.cl_app_secret, rs.sr_app_secret
+            c_s, s_s = rig.sl.calcTLS1_3KeyUpdate_reciever(suite, c_s, s_s)
+            new_w = snap(rig.sl._writeState)
+            rig.rl._readState = snap(saved_r) if gen == 1 else new_r
+            c_r, s_r = rig.rl.calcTLS1_3KeyUpdate_sender(suite, c_r, s_r)
+            new_r = snap(rig.rl._readState)
+
+            def trial2(mclass, presented, honest):
+                res = rig.present(presented, new_r)
+                v = judge(ctx, kind, mclass, presented, honest, res,
+                          dict(W, mut=mclass, presented=presented[:600],
+                               honest=[h[0][:300] for h in honest[:3]]))
+                ctx.ev()
+                ctx.count("trials")
+                ctx.count("v:" + v.split(":")[0])
+                ctx.cell("cell", "%s|%s|%s" % (kind[0], mclass, v))
+                return v
+            hon = []
+            rig.sl._writeState = snap(new_w)
+            for j in range(3):
+                pt = mon.keystream("%s/gen%d/%d" % (cid, gen, j), 24)
+                hon.append((rig.protect(23, pt), 23, pt))
+            if trial2("keyupdate_identity", hon[0][0] + hon[1][0] + hon[2][0],
+                      hon) != "accept":
+                ctx.inconc("key update control failed in %s" % cid)
+                return
+            ctx.count("keyupdate_generations")
+            # previous generation's records at the same positions
+            trial2("previous_epoch_seq0", olds[0][0], hon)
+            trial2("previous_epoch_seq1", hon[0][0] + olds[1][0], hon)
+            trial2("previous_epoch_seq2", hon[0][0] + hon[1][0] + olds[2][0],
+                   hon)
+            olds = hon
+    finally:
+        rig.sl._writeState = snap(saved_w)
+        rig.rl._readState = snap(saved_r)
+
+
+def run_hs_inject(ctx, cid, P):
+    """a forged protected record arrives while the handshake is still
+    running but the receiver already has a read cipher: TLS 1.3 server
+    before the client's first protected record, TLS 1.3 client before the
+    server's, <= 1.2 between ChangeCipherSpec and Finished"""
+    su = suites.TABLE[P["sid"]]
+    ver = tuple(P["ver"])
+    fam = "tls13" if ver == (3, 4) else ("ssl3" if ver == (3, 0) else "le12")
+    direction = P["dir"]
+    rng = ctx.rng
+    st = {"done": False, "ccs": False}
+    how = P["how"]
+
+    def mitm(rec, idx):
+        if rec.dir != direction or st["done"]:
+            return None
+        if ver == (3, 4):
+            hit = rec.type == 23
+        else:
+            if rec.type == 20:
+                st["ccs"] = True
+                return None
+            hit = st["ccs"]
+        if not hit:
+            return None
+        st["done"] = True
+        if how == "garbage":
+            body = mon.keystream(cid, max(24, min(len(rec.body), 64)))
+        elif how == "flipped_copy":
+            body = bytearray(rec.body)
+            body[rng.randrange(len(body))] ^= 1 << rng.randrange(8)
+        else:                       # zero-length protected record
+            body = b""
+        forged = bytes([rec.type if ver != (3, 4) else 23]) + \
+            bytes(rec.raw[1:3]) + len(body).to_bytes(2, "big") + bytes(body)
+        return forged + rec.raw
+
+    fl = suites.flavor_for(P["sid"], ver)
+    p = Pair(mitm=mitm)
+    tc, ts = p.handshake(fl)
+    ctx.ev()
+    ctx.count("hs_inject_trials")
+    if not st["done"]:
+        ctx.count("hs_inject_not_reached")
+        return
+    vt = ts if direction == "c2s" else tc
+    vname = "server" if direction == "c2s" else "client"
+    vconn = p.s if direction == "c2s" else p.c
+    key = {"layer": "handshake", "mut": "inject_" + how, "fam": fam,
+           "ckind": su.cipher_kind, "victim": vname}
+    W = {"case": cid, "outcome": [outcome(tc), outcome(ts)],
+         "records": [r.brief() for r in p.link.records[-10:]]}
+    if vt.status == "done":
+        ctx.violation(dict(key, clause="accepted_nonidentical",
+                           same_plaintext=False), W,
+                      "%s completed the handshake although a forged "
+                      "protected record preceded the peer's first one" %
+                      vname)
+    elif not (vt.status == "exc" and isinstance(vt.exc, E.TLSLocalAlert) and
+              vt.exc.description in ALERT_OK and vt.exc.level == 2):
+        ctx.violation(dict(key, clause="conn_wrong_exception",
+                           exc=str(outcome(vt))), W,
+                      "forged record during the handshake: %r" % (vt.exc,))
+    else:
+        ctx.count("hs_inject_rejected")
+        if not vconn.closed:
+            ctx.violation(dict(key, clause="not_closed"), W, "")
+    ctx.cell("cell", "hs|%s|%s|%s|%s|%s" % (fam, su.cipher_kind, vname, how,
+                                           outcome(vt)))
 
 
 def run_conn(ctx, cid, P):
@@ -738,6 +876,8 @@ def run(ctx):
     for cid, P in ctx.cases(make_cases(ctx)):
         if P["mode"] == "rl":
             run_rl(ctx, cid, P)
+        elif P["mode"] == "hs":
+            run_hs_inject(ctx, cid, P)
         else:
             run_conn(ctx, cid, P)
 
